@@ -87,6 +87,9 @@ class HierarchicalProblem(up.model.problem.Problem):
         }
         new_p._timed_goals = {i: [g for g in gl] for i, gl in self._timed_goals.items()}
         new_p._goals = self._goals[:]
+        new_p.epsilon = self._epsilon
+        new_p.discrete_time = self._discrete_time
+        new_p.self_overlapping = self._self_overlapping
         new_p._trajectory_constraints = self._trajectory_constraints[:]
         new_p._fluents_assigned = {
             t: d.copy() for t, d in self._fluents_assigned.items()
